@@ -197,8 +197,13 @@ impl<'a> Driver<'a> {
     }
 
     pub fn mutate(&mut self, tx: &Transaction) -> (Transaction, &'static str) {
+        let k = self.r.gen_range(0..N_MUTATIONS);
+        self.mutate_k(tx, k)
+    }
+
+    pub fn mutate_k(&mut self, tx: &Transaction, k: usize) -> (Transaction, &'static str) {
         let mut t = tx.clone();
-        match self.r.gen_range(0..16) {
+        match k {
             0 => {
                 // underpay by one, keeping the balance
                 if t.fee.0 > 0 {
@@ -299,6 +304,27 @@ impl<'a> Driver<'a> {
                 // signatures left in place: slots no longer match for new-style covenants
                 (t, "inputs-swapped-sigs-kept")
             }
+            15 => {
+                // a faucet that spends coins: free issuance off the mainnet, rejected on it
+                t.kind = TxKind::Faucet;
+                if let Some(o) = t.outputs.first_mut() {
+                    o.value.0 += 1_000_000;
+                }
+                let a = self.wal.address(CovKind::True);
+                t.outputs.push(mk_coin(a, 77_000, Denom::Sym, &[]));
+                self.resign(&mut t);
+                (t, "faucet-with-inputs")
+            }
+            16 => {
+                // same body, one more (unused) signature: a larger transaction, hence a larger minimum fee
+                t.sigs.push(vec![0u8; 64].into());
+                (t, "extra-signature")
+            }
+            17 => {
+                // same body, a very long unused signature entry
+                t.sigs.push(vec![7u8; 3000].into());
+                (t, "long-extra-signature")
+            }
             _ => (t, "same"),
         }
     }
@@ -369,6 +395,31 @@ pub fn permutations(n: usize, k: usize, r: &mut StdRng) -> Vec<Vec<usize>> {
     }
 }
 
+pub const N_MUTATIONS: usize = 19;
+
+/// every single-transaction mutation once, alone and next to a valid payment (in both orders), against the current state
+pub fn mutation_sweep(d: &mut Driver) {
+    for k in 0..N_MUTATIONS {
+        let base = match d.random_pay() { Some(t) => t, None => return };
+        let (m, name) = d.mutate_k(&base, k);
+        if name == "same" {
+            continue;
+        }
+        // the unmutated original is validated first, on a side branch that is then abandoned (a mempool would do that)
+        let _ = d.w.batch(d.cur, &[base.clone()], 0, json!({"why": format!("sweep: original of {} on an abandoned branch", name)}));
+        let other = d.random_pay().filter(|o| !o.inputs.iter().any(|c| m.inputs.contains(c)));
+        if let Some(o) = other {
+            if d.apply(&[o.clone(), m.clone()], 0, json!({"why": format!("sweep pay, {}", name)})) {
+                continue;
+            }
+            if d.apply(&[m.clone(), o], 0, json!({"why": format!("sweep {}, pay", name)})) {
+                continue;
+            }
+        }
+        d.apply(&[m], 0, json!({"why": format!("sweep {}", name)}));
+    }
+}
+
 /// Random multi-kind history.
 pub fn random_history(out: &mut Out, tag: &str, seed: u64, net: NetID, blocks: usize, fee_mult: u128, jump: u64) {
     let mut d = Driver::new(out, tag, seed, net, fee_mult, Denom::Mel, 1u128 << 60, 1 << 40, BTreeMap::new());
@@ -398,6 +449,9 @@ pub fn random_history(out: &mut Out, tag: &str, seed: u64, net: NetID, blocks: u
     }
     let jump_at = if jump > 0 { blocks / 2 } else { usize::MAX };
     for _b in 0..blocks {
+        if _b == 1 {
+            mutation_sweep(&mut d);
+        }
         if _b == jump_at {
             if let Some(sealed) = d.seal_next(Some(true)) {
                 let j = d.w.jump(sealed, jump);
@@ -411,6 +465,17 @@ pub fn random_history(out: &mut Out, tag: &str, seed: u64, net: NetID, blocks: u
             step(&mut d);
         }
         d.seal_next(None);
+    }
+    // tips of one block adding up to more than the largest coin value: the proposer's coin is still the whole amount
+    if net != NetID::Mainnet {
+        let a = d.wal.address(CovKind::True);
+        let mut f1 = d.faucet(vec![mk_coin(a, 1, Denom::Mel, &[])], 0, 201);
+        f1.fee = CoinValue(1u128 << 120);
+        let mut f2 = d.faucet(vec![mk_coin(a, 2, Denom::Mel, &[])], 0, 202);
+        f2.fee = CoinValue((1u128 << 119) + 12345);
+        d.apply(&[f1, f2], 0, json!({"why": "two faucets whose fees add up to more than 2^120"}));
+        d.seal_next(Some(true));
+        d.seal_next(Some(true));
     }
 }
 
